@@ -59,3 +59,11 @@ PROPS["C13"] = dict(
 PROPS["C14"] = dict(
     level_text="Bit-exact BIP158-style encoding theorem and serialisation round trips over the same model, plus the builder chain/basic block filter model; correspondence on filter bytes, all four serialisations, rebuilt filters, raw/truncated/non-canonical CompactSize inputs, builder chains and random blocks.",
     level_note=_gcs_note, assumptions=COMMON_ASSUME)
+PROPS["C16"] = dict(
+    level_text="Cache-coherence invariant over all accessor interleavings of a handle-based model of block.go/tx.go; every run replays random accessor scripts on real blocks (4 constructors, trailing bytes, out-of-range indices) comparing values and pointer-identity classes with the model.",
+    level_note="Trusted: Lean kernel + standard axioms; wire (de)serialisation, hashes and DeserializeTxLoc are external: their results are inputs of the model (laws stated with the theorems); Go runtime.",
+    assumptions=COMMON_ASSUME)
+PROPS["C17"] = dict(
+    level_text="Theorems over an exact-integer model of IEEE-754 binary64 (Prim/F64: mul/div/round/format mirrored from Go and cross-checked on 77k vectors); every run compares bit patterns and strings with the real code on tie/binade/neighbour-directed floats and evaluates the nearest/odd/monotone/round-trip/exact-text predicates exactly (rational arithmetic) on the implementation's answers.",
+    level_note="Trusted: Lean kernel + standard axioms; amd64 float semantics without FMA; math.Round/Pow10 and strconv.FormatFloat are external and mirrored in lean/Bch/Prim/F64.lean; float->int64 conversion out of range is outside the property.",
+    assumptions=COMMON_ASSUME)
